@@ -50,7 +50,7 @@ Proof. reflexivity. Qed.
 
 (* ---- tie to the current source: regenerated on every run by tools/ga2coq (coq/gen) ---- *)
 From Coq Require Import String.
-From GA Require Import Guards GuardTie.
+From GA Require Import Guards GuardTieCollect.
 From GAGen Require Import GenGuards GenConstFns.
 Local Open Scope Z_scope.
 
@@ -90,7 +90,7 @@ Qed.
 (* ---- T1: the one-expression bodies this property's code consists of besides the modelled core, as they stand
         in the source now (coq/gen/GenSigs.v gen_thin_bodies) ---- *)
 From Coq Require Import String.
-From GA Require Import SigTie.
+From GA Require Import SigDefs.
 From GAGen Require Import GenSigs.
 Local Open Scope string_scope.
 
